@@ -5,6 +5,7 @@ import (
 	"go/ast"
 	"go/token"
 	"go/types"
+	"regexp"
 	"strings"
 
 	"golang.org/x/tools/go/packages"
@@ -19,153 +20,19 @@ R13.3 substitution in MethodScope.AddVar: with a replacement the variable's type
 R13.4 the setting is effective at every level: ReplaceType is inheritable in mergeConfigs (the C08 R08.1 field rule applied to this field).`
 	c.NotDecided = "that the substituted signature compiles; aliases of aliases; which packages go list resolves."
 	c.Assumptions = []string{"go/types Named/Alias API"}
-	c.Rule("R13.1", 8, "")
+	c.Rule("R13.1", 6, "")
 	c.Rule("R13.2", 1, "")
 	c.Rule("R13.3", 5, "")
 	c.Rule("R13.4", 1, "")
 	r := loadRepo(c, packages.LoadSyntax, "", "./internal", "./template", "./config")
 	ip := r.Pkg("internal")
-	info := ip.TypesInfo
+	_ = ip.TypesInfo
 	md := FuncDecl(ip, "TemplateGenerator.methodData")
 	if md == nil {
 		c.Fail("R13.1", "methodData|missing", "internal/template_generator.go", "methodData not found")
 	} else {
 		c.Func(funcKey(ip, md))
-		nLoops := 0
-		for _, s := range md.Body.List {
-			fs, ok := s.(*ast.ForStmt)
-			if !ok {
-				continue
-			}
-			if _, _, ok := countingLoop(info, fs); !ok {
-				continue
-			}
-			nLoops++
-			which := fmt.Sprintf("loop%d", nLoops)
-			if b := types.ExprString(fs.Cond); strings.Contains(b, "Params()") {
-				which = "params"
-			} else if strings.Contains(b, "Results()") {
-				which = "results"
-			}
-			bodyScope := info.Scopes[fs.Body]
-			// GetReplacement call
-			var gr *ast.CallExpr
-			var grResult types.Object
-			ast.Inspect(fs.Body, func(n ast.Node) bool {
-				if as, ok := n.(*ast.AssignStmt); ok && len(as.Rhs) == 1 {
-					if call, ok := as.Rhs[0].(*ast.CallExpr); ok && strings.HasSuffix(calleeName(info, call), "config.Config).GetReplacement") {
-						gr = call
-						grResult = objOf(info, as.Lhs[0].(*ast.Ident))
-					}
-				}
-				return true
-			})
-			if gr == nil || len(gr.Args) != 2 {
-				c.Fail("R13.1", "methodData|"+which+"|no-lookup", r.Pos(fs.Pos()), "the "+which+" loop does not look up a replacement")
-				continue
-			}
-			k0, ok0 := gr.Args[0].(*ast.Ident)
-			k1, ok1 := gr.Args[1].(*ast.Ident)
-			if !ok0 || !ok1 {
-				c.Fail("R13.1", "methodData|"+which+"|key-args", r.Pos(gr.Pos()), "GetReplacement is not called with the two key variables")
-				continue
-			}
-			pkgVar, nameVar := info.Uses[k0], info.Uses[k1]
-			// declared inside the loop body
-			fresh := pkgVar != nil && nameVar != nil && pkgVar.Parent() == bodyScope && nameVar.Parent() == bodyScope
-			c.Check(fresh, "R13.1", "methodData|"+which+"|key-fresh", r.Pos(gr.Pos()), "key variables are declared per parameter", "the replacement lookup key of the "+which+" loop is not declared inside the loop body: a parameter of an unnamed type (string, *T, []T, ...) would reuse the key of the previous named parameter and be replaced too")
-			// assignments to the key variables: only in Named/Alias arms, from t.Obj()...
-			okAssign, nArms := true, 0
-			var paramObj types.Object
-			ast.Inspect(fs.Body, func(n ast.Node) bool {
-				ts, ok := n.(*ast.TypeSwitchStmt)
-				if !ok {
-					return true
-				}
-				// switch t := param.Type().(type)
-				if as, ok := ts.Assign.(*ast.AssignStmt); ok {
-					if ta, ok := as.Rhs[0].(*ast.TypeAssertExpr); ok {
-						if root, _ := selChainCalls(ta.X); root != nil && strings.HasSuffix(types.ExprString(ta.X), ".Type()") {
-							paramObj = info.Uses[root]
-						}
-					}
-				}
-				for _, cs := range ts.Body.List {
-					cc := cs.(*ast.CaseClause)
-					armTypes := []string{}
-					for _, e := range cc.List {
-						armTypes = append(armTypes, types.ExprString(e))
-					}
-					assigns := false
-					for _, st := range cc.Body {
-						ast.Inspect(st, func(m ast.Node) bool {
-							as, ok := m.(*ast.AssignStmt)
-							if !ok || len(as.Lhs) != 1 {
-								return true
-							}
-							l, ok := as.Lhs[0].(*ast.Ident)
-							if !ok {
-								return true
-							}
-							switch info.Uses[l] {
-							case pkgVar:
-								assigns = true
-								rhs := types.ExprString(as.Rhs[0])
-								if !(rhs == "pkg.Path()" || strings.HasSuffix(rhs, ".Obj().Pkg().Path()")) {
-									okAssign = false
-								}
-							case nameVar:
-								assigns = true
-								if !strings.HasSuffix(types.ExprString(as.Rhs[0]), ".Obj().Name()") {
-									okAssign = false
-								}
-							}
-							return true
-						})
-					}
-					if assigns {
-						nArms++
-						if len(armTypes) != 1 || (armTypes[0] != "*types.Named" && armTypes[0] != "*types.Alias") {
-							okAssign = false
-						}
-					}
-				}
-				return true
-			})
-			// no assignment to the keys outside the type switch
-			ast.Inspect(fs.Body, func(n ast.Node) bool {
-				if _, ok := n.(*ast.TypeSwitchStmt); ok {
-					return false
-				}
-				if as, ok := n.(*ast.AssignStmt); ok {
-					for _, l := range as.Lhs {
-						if id, ok := l.(*ast.Ident); ok && (info.Uses[id] == pkgVar || info.Uses[id] == nameVar) && as.Tok == token.ASSIGN {
-							okAssign = false
-						}
-					}
-				}
-				return true
-			})
-			c.Check(okAssign && nArms == 2, "R13.1", "methodData|"+which+"|key-origin", r.Pos(fs.Pos()), "key = (t.Obj().Pkg().Path(), t.Obj().Name()) for exactly Named and Alias types", fmt.Sprintf("in the %s loop the lookup key is not assigned exactly in the *types.Named and *types.Alias arms from t.Obj().Pkg().Path() and t.Obj().Name() (%d arms assign it)", which, nArms))
-			// the replacement goes to AddVar together with that parameter
-			okAdd := false
-			ast.Inspect(fs.Body, func(n ast.Node) bool {
-				if call, ok := n.(*ast.CallExpr); ok && strings.HasSuffix(calleeName(info, call), "template.MethodScope).AddVar") && len(call.Args) == 4 {
-					a1, ok1 := call.Args[1].(*ast.Ident)
-					a3, ok3 := call.Args[3].(*ast.Ident)
-					if ok1 && ok3 && info.Uses[a1] == paramObj && info.Uses[a3] == grResult {
-						okAdd = true
-					}
-				}
-				return true
-			})
-			c.Check(okAdd, "R13.1", "methodData|"+which+"|addvar", r.Pos(fs.Pos()), "AddVar(param, replacement-of-that-param)", "the replacement found for a parameter is not handed to AddVar together with that same parameter")
-			// key order: first arg feeds the package-path parameter
-			c.Check(strings.Contains(strings.ToLower(k0.Name), "pkg") && !strings.Contains(strings.ToLower(k1.Name), "pkg"), "R13.1", "methodData|"+which+"|key-order", r.Pos(gr.Pos()), "GetReplacement(package path, type name)", "GetReplacement's arguments are not (package path, type name)")
-		}
-		if nLoops != 2 {
-			c.Fail("R13.1", "methodData|loops", r.Pos(md.Pos()), fmt.Sprintf("%d signature loops found, want 2", nLoops))
-		}
+		ruleReplacementKey(c, r, ip, md)
 	}
 	// ---- R13.2
 	cp := r.Pkg("config")
@@ -173,17 +40,30 @@ R13.4 the setting is effective at every level: ReplaceType is inheritable in mer
 		c.Fail("R13.2", "GetReplacement|missing", "config/config.go", "GetReplacement not found")
 	} else {
 		paths, _ := enumerateFunc(cp.TypesInfo, fd)
-		ok := len(paths) == 2
+		// every path returns ReplaceType[pkgPath][typeName]; nil only where the package entry was seen to be absent
+		ok := len(paths) > 0
 		for _, p := range paths {
-			miss, has := p.atom("RECV.ReplaceType[ARG0] == nil")
-			if !has || p.Exit != "return" {
+			if p.Exit != "return" || len(p.Ret) != 1 {
 				ok = false
 				continue
 			}
-			if miss {
-				ok = ok && p.Ret[0] == "nil"
-			} else {
-				ok = ok && p.Ret[0] == "RECV.ReplaceType[ARG0][ARG1]"
+			absent := false
+			for _, a := range p.Atoms {
+				switch a.Expr {
+				case "RECV.ReplaceType[ARG0] == nil":
+					absent = absent || a.Val
+				case "RECV.ReplaceType[ARG0]#ok":
+					absent = absent || !a.Val
+				default:
+					ok = false // some other condition decides the result
+				}
+			}
+			switch p.Ret[0] {
+			case "RECV.ReplaceType[ARG0][ARG1]":
+			case "nil":
+				ok = ok && absent
+			default:
+				ok = false
 			}
 		}
 		c.Check(ok, "R13.2", "GetReplacement|two-level", r.Pos(fd.Pos()), "ReplaceType[pkgPath][typeName]", "GetReplacement is not ReplaceType[<first parameter>][<second parameter>] (nil when the package is absent)")
@@ -374,4 +254,179 @@ func ruleAddVar(c *Ctx, r *Repo) {
 		okElse = popOK && typOK
 	}
 	c.Check(okElse, "R13.3", "AddVar|plain-var", r.Pos(ifs.Pos()), "without a replacement: own type, imports from populateImports", "without a replacement the variable is not rendered with its own type and the imports collected from it")
+}
+
+var resAnnot = regexp.MustCompile(`<\([^<>]*\)[^<>]*>`)
+
+// stripRes removes the "<(recv).Method>" resolution annotations of canonical strings.
+func stripRes(s string) string { return resAnnot.ReplaceAllString(s, "") }
+
+// ruleReplacementKey (R13.1): in each signature loop of methodData, on every path that reaches the
+// GetReplacement call the key is (package path, name) of the parameter's own type when that type is
+// *types.Named or *types.Alias (package path "" when the object has no package) and ("", "")
+// otherwise, and the result is handed to AddVar together with that parameter. The key may be computed
+// inline or by a function of the package, which is then held to the same contract.
+func ruleReplacementKey(c *Ctx, r *Repo, ip *packages.Package, md *ast.FuncDecl) {
+	info := ip.TypesInfo
+	funcs := pkgFuncs(ip)
+	isZero := func(s string) bool { return s == "zero" || s == `""` }
+	// contract for one (T, atoms, pkgArg, nameArg)
+	keyOK := func(p *dtPath, T, pkgArg, nameArg string) (bool, string) {
+		named, hasN := false, false
+		alias, hasA := false, false
+		pkgNil := map[string]bool{}
+		for _, a := range p.Atoms {
+			e := stripRes(a.Expr)
+			switch {
+			case e == T+".(*types.Named)#ok":
+				named, hasN = a.Val, true
+			case e == T+".(*types.Alias)#ok":
+				alias, hasA = a.Val, true
+			case strings.HasSuffix(e, ".Obj().Pkg() == nil"):
+				pkgNil[strings.TrimSuffix(e, ".Obj().Pkg() == nil")] = a.Val
+			}
+		}
+		pkgArg, nameArg = stripRes(pkgArg), stripRes(nameArg)
+		for _, arm := range []struct {
+			on bool
+			x  string
+		}{{hasN && named, T + ".(*types.Named)"}, {hasA && alias, T + ".(*types.Alias)"}} {
+			if !arm.on {
+				continue
+			}
+			if nameArg != arm.x+".Obj().Name()" {
+				return false, fmt.Sprintf("for a %s type the name key is %q, want %s.Obj().Name()", arm.x, nameArg, arm.x)
+			}
+			isNil, tested := pkgNil[arm.x]
+			switch {
+			case tested && isNil:
+				if !isZero(pkgArg) {
+					return false, fmt.Sprintf("for a %s type without a package the package-path key is %q, want \"\"", arm.x, pkgArg)
+				}
+			default:
+				if pkgArg != arm.x+".Obj().Pkg().Path()" {
+					return false, fmt.Sprintf("for a %s type the package-path key is %q, want %s.Obj().Pkg().Path()", arm.x, pkgArg, arm.x)
+				}
+			}
+			return true, ""
+		}
+		if !(hasN && hasA) {
+			return false, "the path does not test the parameter's own type for both *types.Named and *types.Alias: " + p.String()
+		}
+		if !isZero(pkgArg) || !isZero(nameArg) {
+			return false, fmt.Sprintf("for a type that is neither named nor an alias the key is (%q, %q), want empty: the parameter would be looked up under a stale or foreign key", pkgArg, nameArg)
+		}
+		return true, ""
+	}
+	nLoops := 0
+	ast.Inspect(md.Body, func(n ast.Node) bool {
+		st, ok := n.(ast.Stmt)
+		if !ok {
+			return true
+		}
+		iv, bound, body, ok := indexLoop(info, st)
+		if !ok {
+			return true
+		}
+		fc := newFuncCanon(info, md)
+		which := ""
+		switch b := stripRes(fc.E(bound)); {
+		case strings.HasSuffix(b, ".Params().Len()"):
+			which = "params"
+		case strings.HasSuffix(b, ".Results().Len()"):
+			which = "results"
+		default:
+			return true
+		}
+		nLoops++
+		d := newDT(info)
+		start := d.envBefore(seedEnv(d, md), md.Body.List, st)
+		d.loopUnknown(start, st)
+		start.env[iv] = "I"
+		d.paths = nil
+		d.stmts(start, body.List, func(p *dtPath) { d.finish(p, "end") })
+		if d.overflow || len(d.paths) == 0 {
+			c.Fail("R13.1", "methodData|"+which+"|paths", r.Pos(st.Pos()), "cannot enumerate the paths of the "+which+" loop")
+			return false
+		}
+		nLookup := 0
+		okOrigin, whyOrigin := true, ""
+		okAdd, okOrder := true, true
+		for _, p := range d.paths {
+			adds := p.CallsTo("template.MethodScope).AddVar")
+			grs := p.CallsTo("config.Config).GetReplacement")
+			if len(adds) == 0 && len(grs) == 0 {
+				continue
+			}
+			if len(adds) > 1 || len(grs) != 1 || len(grs[0].Args) != 2 || (len(adds) == 1 && len(adds[0].Args) != 4) {
+				okAdd = false
+				continue
+			}
+			nLookup++
+			gr := grs[0]
+			// the parameter: element I of the signature's tuple
+			elem := "ARG1.Type().(*types.Signature)." + map[string]string{"params": "Params", "results": "Results"}[which] + "().At(I)"
+			T := elem + ".Type()"
+			pkgArg, nameArg := gr.Args[0], gr.Args[1]
+			if i := strings.Index(pkgArg, "("); i > 0 && strings.HasSuffix(pkgArg, "#0") && strings.HasSuffix(nameArg, "#1") && pkgArg[:len(pkgArg)-2] == nameArg[:len(nameArg)-2] {
+				// both keys come from one call: hold the callee to the contract
+				var helper *ast.FuncDecl
+				for fn, fd := range funcs {
+					if strings.HasPrefix(pkgArg, "internal."+fn.Name()+"(") && fd.Recv == nil {
+						helper = fd
+					}
+				}
+				if helper == nil || stripRes(pkgArg) != "internal."+helper.Name.Name+"("+T+")#0" {
+					okOrigin, whyOrigin = false, "the key comes from "+stripRes(pkgArg)+", which is not a function of this package applied to the parameter's own type"
+					continue
+				}
+				c.Func(funcKey(ip, helper))
+				hd := newDT(info)
+				hstart := seedEnv(hd, helper)
+				if helper.Type.Results != nil {
+					for _, f := range helper.Type.Results.List {
+						for _, n := range f.Names {
+							hstart.env[info.Defs[n]] = "zero"
+						}
+					}
+				}
+				hd.paths = nil
+				hd.stmts(hstart, helper.Body.List, func(p *dtPath) { hd.finish(p, "end") })
+				for _, hp := range hd.paths {
+					if hp.Exit != "return" || (len(hp.Ret) != 2 && len(hp.Ret) != 0) {
+						okOrigin, whyOrigin = false, "a path of "+helper.Name.Name+" does not return the key pair"
+						continue
+					}
+					ret := hp.Ret
+					if len(ret) == 0 { // bare return with named results
+						ret = nil
+						for _, f := range helper.Type.Results.List {
+							for _, n := range f.Names {
+								ret = append(ret, hp.env[info.Defs[n]])
+							}
+						}
+					}
+					if ok, why := keyOK(hp, "ARG0", ret[0], ret[1]); !ok {
+						okOrigin, whyOrigin = false, helper.Name.Name+": "+why
+					}
+				}
+			} else if ok, why := keyOK(p, T, pkgArg, nameArg); !ok {
+				okOrigin, whyOrigin = false, why
+			}
+			if len(adds) == 1 {
+				a := adds[0]
+				if stripRes(a.Args[1]) != elem || !strings.Contains(a.Args[3], ".GetReplacement<") || !strings.HasSuffix(stripRes(a.Args[3]), ".GetReplacement("+stripRes(gr.Args[0])+", "+stripRes(gr.Args[1])+")") {
+					okAdd = false
+				}
+			}
+			_ = okOrder
+		}
+		c.Check(nLookup > 0, "R13.1", "methodData|"+which+"|no-lookup", r.Pos(st.Pos()), "a replacement is looked up for every element", "the "+which+" loop does not look up a replacement")
+		c.Check(okOrigin, "R13.1", "methodData|"+which+"|key-origin", r.Pos(st.Pos()), "key = (Obj().Pkg().Path(), Obj().Name()) of the element's own type for exactly Named and Alias types, empty otherwise", "in the "+which+" loop the lookup key is wrong: "+whyOrigin)
+		c.Check(okAdd, "R13.1", "methodData|"+which+"|addvar", r.Pos(st.Pos()), "AddVar(element, replacement-of-that-element)", "the replacement found for a parameter is not handed to AddVar together with that same parameter")
+		return false
+	})
+	if nLoops != 2 {
+		c.Fail("R13.1", "methodData|loops", r.Pos(md.Pos()), fmt.Sprintf("%d signature loops found, want 2", nLoops))
+	}
 }
